@@ -4,6 +4,7 @@ import (
 	"verif/core"
 	_ "verif/props/c01"
 	_ "verif/props/c16"
+	_ "verif/props/c17"
 	_ "verif/props/listops"
 )
 
